@@ -250,10 +250,12 @@ class Model(object):
         return max(max(int(r['atype']) for r in self.recs), len(self.symbols))
 
 
-def _mk(am, np, rng, n):
+def _mk(am, np, rng, n, intpos=False):
     pos = rng.uniform(0, 4, (n, 3)).round(3)
     atype = rng.randint(1, 3, n)
-    at = am.Atoms(atype=atype.copy(), pos=pos.copy(), charge=rng.uniform(-1, 1, n).round(3), tag=np.arange(n) + 10, stress=rng.uniform(-1, 1, (n, 2, 2)).round(3))
+    if intpos:
+        pos = pos.round(0)          # whole-number coordinates handed over as Python ints
+    at = am.Atoms(atype=atype.copy(), pos=[[int(x) for x in row] for row in pos] if intpos else pos.copy(), charge=rng.uniform(-1, 1, n).round(3), tag=np.arange(n) + 10, stress=rng.uniform(-1, 1, (n, 2, 2)).round(3))
     s = am.System(atoms=at, box=am.Box(vects=[[4.0, 0, 0], [1.0, 5.0, 0], [0.5, -0.5, 6.0]], origin=[0.5, -1.0, 2.0]), symbols=['Al', 'Cu'], masses=[26.98, 63.55])
     recs = [dict(atype=int(atype[i]), pos=pos[i].copy(), charge=float(at.charge[i]), tag=int(at.tag[i]), stress=at.stress[i].copy()) for i in range(n)]
     return s, Model(recs, ['Al', 'Cu'], [26.98, 63.55])
@@ -408,7 +410,7 @@ def _ops(am, np, rng):
               'never shorter than the number of atom types, copying accessors do not alias and operand systems are left unchanged',
        rule='17 operations (attribute/view assignment with scalar/length-1/full values, indexed writes with int/negative/slice/list/boolean index, per-type assignment, extend by count / by Atoms '
             'with differing properties / with box-scaled positions, atoms_ix, __setitem__, symbols/masses, in-place retype, deepcopy); all sequences of length 1 and 2, seeded sequences of length 3-4; '
-            'distinct by sequence; non-trivial = length >= 2')
+            'every 4th sequence starts from positions given as whole Python ints; distinct by sequence; non-trivial = length >= 2')
 def sequences(tier, seed):
     from pyvc.native import atomman
     import numpy as np
@@ -426,7 +428,7 @@ def sequences(tier, seed):
         evals += 1
         nontriv += len(seq) >= 2
         ops = dict(_ops(am, np, np.random.RandomState(evals)))
-        s, m = _mk(am, np, np.random.RandomState(1000 + evals), 4)
+        s, m = _mk(am, np, np.random.RandomState(1000 + evals), 4, intpos=(evals % 4 == 0))
         msgs = []
         try:
             _check(am, np, s, m, msgs, 'initial')
